@@ -43,6 +43,18 @@ class FuncUnit:
                                     configure=getattr(self, "configure", None))
         for o in obs:
             o.kind = "func"
+        bd = getattr(self, "bounded_desc", None)
+        if bd:
+            # loops of this function are unrolled for fixed small sizes: a bounded stand-in, not a proof
+            keep = getattr(self, "bounded_except", ())
+            n = 0
+            for o in obs:
+                if o.clause in ("frame",) or o.clause in keep:
+                    continue
+                o.bounded = True
+                n += 1
+            info["bounded"] = [{"what": self.name, "bound": bd, "cases": info.get("paths", 1), "distinct": info.get("paths", 1),
+                                "obligations_not_counted_as_proved": n, "props": sorted(self.props)}]
         return obs, info
 
 
